@@ -4,6 +4,7 @@ import AskarModel.Model.Uri
 import AskarModel.Model.Keys
 import AskarModel.Model.KeysDisk
 import AskarModel.Model.SqliteOpts
+import AskarModel.Model.PgOptions
 
 open Lean
 
@@ -440,6 +441,33 @@ def runMisc (j : Json) : Json :=
     | _, _ => jerr "setup"
   | sc => jerr ("unknown scenario " ++ sc)
 
+/-! #### c08:pgopts — `PostgresStoreOptions::new` (Model/PgOptions.lean) -/
+
+/-- Input: `uri` (a string, parsed by the model's `parseUri`) or `o` (an `Options` value handed over as it is).
+    Output: the four numbers (decimal text: u64 does not fit a JSON double), host / name / username / schema, and for BOTH
+    derived URIs the re-parse as canonical options (the raw text depends on the hash map's iteration order; it is added when
+    at most one parameter is left, where it is determined). -/
+def runPgOpts (j : Json) : Json :=
+  let o : Uri.Options := match j.getObjVal? "o" with
+    | .ok oj => (optsOf oj).1
+    | _ => parseUri (toStr (str! j "uri"))
+  match Askar.PgOptions.pgNew o with
+  | .error .input => jerr "Input"
+  | .error .panic => Json.mkObj [("panic", true)]
+  | .ok r =>
+    let text (x : Uri.Options) : Json := if x.query.length ≤ 1 then jstr (intoUri x) else .null
+    -- host and path are written verbatim: a `?` / `#` in them moves the query text into another component, and with two or more
+    -- parameters what is read back depends on the enumeration order of the map — not compared
+    let reparse (x : Uri.Options) : Json :=
+      if x.query.length ≥ 2 && (x.host ++ x.path).any (fun b => b = 0x3F || b = 0x23) then .str "order-dependent"
+      else jopts (parseUri (intoUri x))
+    Json.mkObj [("connect_timeout", .str (toString r.connectTimeout)), ("idle_timeout", .str (toString r.idleTimeout)),
+      ("max", .str (toString r.maxConnections)), ("min", .str (toString r.minConnections)),
+      ("host", jstr r.host), ("name", jstr r.name), ("username", jstr r.username),
+      ("schema", match r.schema with | some s => jstr s | none => .null),
+      ("uri", reparse r.uriOpts), ("admin_uri", reparse r.adminOpts),
+      ("uri_text", text r.uriOpts), ("admin_text", text r.adminOpts)]
+
 def runCase (j : Json) : Json :=
   match str! j "kind" with
   | "c08:uri-opts" => runUriOpts j
@@ -449,6 +477,7 @@ def runCase (j : Json) : Json :=
   | "c08:cfg" => runCfg j
   | "c08:opts" => runOpts j
   | "c08:misc" => runMisc j
+  | "c08:pgopts" => runPgOpts j
   | k => jerr ("unknown kind " ++ k)
 
 end Driver.C08
